@@ -1,30 +1,75 @@
 #!/usr/bin/env python3
-"""Regenerate the generated blocks of DESIGN.md §9 (theorem list, defect table, seeded-change table).
+"""Regenerate the generated blocks of DESIGN.md §9 from the tree.
 
 Blocks are delimited by `<!-- gen:NAME -->` / `<!-- /gen:NAME -->`; everything else is hand-written.
+
+  modules   per property: the Lean modules (Model / Spec / Lemmas / Driver, every `Cxx<letter>.lean` included) and the
+            harness files, with line counts
+  theorems  names of the property theorems of `lean/PhyVerif/Props/Cxx.lean`
+  defects   known_findings.json as a table
+  rounds    first-verdict statistics of the seeded changes per round, from seeded/*/meta.json
+  seeded    one row per seeded change
+  missed    the changes whose first verdict was not `caught`, and what they are now
 """
 import json, os, re, sys, glob
 ROOT = os.path.dirname(os.path.dirname(os.path.abspath(__file__)))
 sys.path.insert(0, ROOT)
 from harness import common as C
 
+LEAN = os.path.join(ROOT, 'lean', 'PhyVerif')
+
+
+def _lines(p):
+    with open(p, errors='replace') as f:
+        return sum(1 for _ in f)
+
+
+def modules():
+    out = []
+    tot = dict(Model=0, Spec=0, Lemmas=0, Props=0, Driver=0)
+    for i in range(1, 21):
+        pid = 'C%02d' % i
+        parts = []
+        for sub in ('Model', 'Spec', 'Lemmas', 'Driver'):
+            fs = sorted(glob.glob(os.path.join(LEAN, sub, pid + '*.lean')))
+            if fs:
+                n = sum(_lines(f) for f in fs)
+                tot[sub] += n
+                parts.append('%s: %s (%d)' % (sub, ', '.join('`%s`' % os.path.basename(f)[:-5] for f in fs), n))
+        tot['Props'] += _lines(os.path.join(LEAN, 'Props', pid + '.lean'))
+        h = os.path.join(ROOT, 'harness', 'prop_%s.py' % pid.lower())
+        parts.append('harness: `prop_%s.py` (%d)' % (pid.lower(), _lines(h)))
+        out.append('* **%s** — %s' % (pid, '; '.join(parts)))
+    shared = []
+    for sub in ('Model', 'Lemmas', 'Driver'):
+        for f in sorted(glob.glob(os.path.join(LEAN, sub, '*.lean'))):
+            if not re.match(r'C\d\d', os.path.basename(f)):
+                shared.append('`%s/%s` (%d)' % (sub, os.path.basename(f)[:-5], _lines(f)))
+    hs = ['`%s` (%d)' % (os.path.basename(f), _lines(f)) for f in sorted(glob.glob(os.path.join(ROOT, 'harness', '*.py')))
+          if not os.path.basename(f).startswith('prop_') and os.path.basename(f) != '__init__.py']
+    out.append('* shared — Lean: %s; harness: %s' % (', '.join(shared), ', '.join(hs)))
+    out.append('* lines of Lean per kind (per-property modules): ' + ', '.join('%s %d' % kv for kv in tot.items()))
+    return '\n'.join(out)
+
 
 def theorems():
-    out = []
+    out, tot = [], 0
     for i in range(1, 21):
         pid = 'C%02d' % i
         ths = [t.split('.')[-1] for t in C.theorems_of(pid)]
+        tot += len(ths)
         out.append('* **%s** (%d): %s' % (pid, len(ths), ', '.join('`%s`' % t for t in ths)))
-    return '\n'.join(out)
+    return '%d property theorems:\n\n' % tot + '\n'.join(out)
 
 
 def defects():
     kf = json.load(open(os.path.join(ROOT, 'known_findings.json')))
+    nf = sum(e.get('status') == 'fixed' for e in kf)
     rows = ['| property | commit | what failed |', '|---|---|---|']
     for e in kf:
         commit = e['commit'][:7] if e.get('status') == 'fixed' else '(open)'
         rows.append('| %s | %s | %s |' % (e['property'], commit, e['what'].replace('|', '/')))
-    return '\n'.join(rows)
+    return '%d repaired (`fixed`), %d open:\n\n' % (nf, len(kf) - nf) + '\n'.join(rows)
 
 
 def summary_line(notes):
@@ -42,51 +87,92 @@ def summary_line(notes):
     return ''
 
 
-def seeded():
-    rows = ['| property | seeded change | caught by | first version | needs |', '|---|---|---|---|---|']
-    n = 0
+def need_line(notes, n=230):
+    """the start of the 'what is needed for it to manifest' section of a report"""
+    m = re.search(r'^#+\s*(?:what (?:is|it) need[^\n]*|needs[^\n]*)\n(.*?)(?=\n#+ |\Z)', notes, re.S | re.I | re.M)
+    if not m:
+        return ''
+    t = re.sub(r'\s+', ' ', m.group(1).replace('|', '/')).strip()
+    return t[:n] + ('…' if len(t) > n else '')
+
+
+def metas():
+    out = []
     for d in sorted(glob.glob(os.path.join(ROOT, 'seeded', '*'))):
         mp = os.path.join(d, 'meta.json')
         if not os.path.exists(mp):
             continue
-        m = json.load(open(mp))
+        b = os.path.basename(d)
+        mm = re.match(r'(C\d\d)_([AB])(\d*)_', b)
+        rnd = int(mm.group(3) or 1) if mm else 0
+        out.append((rnd, b, json.load(open(mp))))
+    return out
+
+
+def kind(m):
+    fv = m.get('first_version', 'caught')
+    return 'missed' if fv.startswith('missed') else 'strengthened' if fv.startswith('strengthened') else 'caught'
+
+
+def rounds():
+    ms = metas()
+    rows = ['| round | changes | caught by the check as it was | check strengthened from the report before the first evaluation | missed by the check as it was | not caught at the last evaluation |',
+            '|---|---|---|---|---|---|']
+    tot = [0, 0, 0, 0, 0]
+    for r in sorted({x[0] for x in ms}):
+        sel = [m for rr, _, m in ms if rr == r]
+        c = [len(sel)] + [sum(kind(m) == k for m in sel) for k in ('caught', 'strengthened', 'missed')] + \
+            [sum(not m.get('caught_by') for m in sel)]
+        tot = [a + b for a, b in zip(tot, c)]
+        rows.append('| %d | %s |' % (r, ' | '.join(str(x) for x in c)))
+    rows.append('| all | %s |' % ' | '.join(str(x) for x in tot))
+    return '\n'.join(rows)
+
+
+def seeded():
+    rows = ['| property | round | seeded change | caught by | first version | needs |', '|---|---|---|---|---|---|']
+    n = 0
+    for rnd, b, m in metas():
         n += 1
         caught = ', '.join(m.get('caught_by', [])) or 'MISSED'
         first = m.get('first_version', 'caught')
         needs = summary_line(m.get('needs') or m.get('what') or '')
-        rows.append('| %s | `%s` | %s | %s | %s |' % (m.get('property', os.path.basename(d)[:3]),
-                                                    os.path.basename(d), caught, first, needs))
+        rows.append('| %s | %d | `%s` | %s | %s | %s |' % (m.get('property', b[:3]), rnd, b, caught, first, needs))
     return '%d confirmed changes:\n\n' % n + '\n'.join(rows)
 
 
 def missed():
     out, n, tot = [], 0, 0
-    for d in sorted(glob.glob(os.path.join(ROOT, 'seeded', '*'))):
-        mp = os.path.join(d, 'meta.json')
-        if not os.path.exists(mp):
-            continue
-        m = json.load(open(mp))
+    for rnd, b, m in metas():
         tot += 1
         fv = m.get('first_version', 'caught')
-        if fv.startswith('missed') or fv.startswith('strengthened'):
+        if kind(m) != 'caught':
             n += 1
-            out.append('* `%s` — %s; now %s' % (os.path.basename(d), fv.replace('missed; strengthened: ', 'missed; strengthened with '),
-                                             'caught by ' + ', '.join(m['caught_by']) if m.get('caught_by') else 'STILL MISSED'))
-    return ('%d of the %d changes were missed by the version of the check that existed when they were written (or, in round 3, '
-            'were evaluated only after the check had been strengthened from the report) and led to stronger generators/oracles '
-            '(the property theorems did not change; what grew is the part of the input space on which model and code are compared):\n\n' % (n, tot)
+            now = 'caught by ' + ', '.join(m['caught_by']) if m.get('caught_by') else 'NOT CAUGHT at the last evaluation recorded in its meta.json'
+            what = fv.replace('missed; strengthened: ', 'missed; strengthened with ')
+            if fv.strip() == 'missed':
+                nl = need_line(m.get('needs') or '')
+                if nl:
+                    what = 'missed; it needs: ' + nl
+            out.append('* `%s` (round %d) — %s; now %s' % (b, rnd, what, now))
+    return ('%d of the %d changes were not caught by the version of the check that existed when they were written: they were missed by it, or '
+            '(rounds 3–5) were evaluated only after the check had been strengthened from the report. Each led to stronger generators/oracles '
+            '(the property theorems did not change because of them; what grew is the part of the input space on which model and code are compared). '
+            'For rounds 6 and 7 the meta.json records only `missed`; the line then quotes what the change needs in order to show, which is what '
+            'the generators were given afterwards:\n\n' % (n, tot)
             + '\n'.join(out))
 
 
 def main():
     p = os.path.join(ROOT, 'DESIGN.md')
     s = open(p).read()
-    for name, fn in (('theorems', theorems), ('defects', defects), ('seeded', seeded), ('missed', missed)):
-        pat = re.compile(r'(<!-- gen:%s -->\n).*?(\n<!-- /gen:%s -->)' % (name, name), re.S)
+    for name, fn in (('modules', modules), ('theorems', theorems), ('defects', defects), ('rounds', rounds),
+                     ('seeded', seeded), ('missed', missed)):
+        pat = re.compile(r'(<!-- gen:%s -->\n)(?:.*?\n)??(<!-- /gen:%s -->)' % (name, name), re.S)
         if not pat.search(s):
             sys.exit('marker gen:%s missing in DESIGN.md' % name)
         body = fn()
-        s = pat.sub(lambda m: m.group(1) + body + m.group(2), s)
+        s = pat.sub(lambda m: m.group(1) + body + '\n' + m.group(2), s)
     open(p, 'w').write(s)
 
 
